@@ -247,5 +247,25 @@ S17 = Scenario(
     note="a definition whose instance is connected on two ports is reshaped (ports reordered, a pin added in front) so that "
          "the instance's pin table and the port order differ; then the netlist / library is cloned")
 
+# positions other than "append" and "in front": negative, past the end, and not an index at all (a float, as
+# len(x) / 2 gives): whatever the call does - insert, clamp or raise - the structure stays consistent.  Used by
+# C01 / C02 only: what a call that fails with a TypeError leaves in the name tables is outside C14's list of refusals.
+_ODD = (None, 0, -1, 7, 0.5)
+S18 = [
+    Scenario("S18a-odd-positions-ports", seeds.seed_ports,
+             ["definition.add_port", "port.add_pin", "definition.remove_port", "port.remove_pin"],
+             limits={"positions": _ODD, "names": (None,)}, depth={"quick": 2, "thorough": 3},
+             note="add_port / add_pin at negative, out-of-range and non-index positions on a cell with two instances"),
+    Scenario("S18b-odd-positions-wires", seeds.seed_conn,
+             ["definition.add_cable", "cable.add_wire", "wire.connect_pin", "wire.disconnect_pin", "cable.remove_wire", "definition.remove_cable"],
+             limits={"positions": _ODD, "names": (None,), "proxy_pairs": lambda w: []}, depth={"quick": 2, "thorough": 3},
+             note="add_cable / add_wire / connect_pin at negative, out-of-range and non-index positions"),
+    Scenario("S18c-odd-positions-children", seeds.seed_children,
+             ["definition.add_child", "definition.remove_child", "library.add_definition", "library.remove_definition",
+              "netlist.add_library", "netlist.remove_library"],
+             limits={"positions": _ODD, "names": (None,)}, depth={"quick": 2, "thorough": 3},
+             note="add_child / add_definition / add_library at negative, out-of-range and non-index positions"),
+]
+
 STRUCTURAL += [S10, S11, S9, S12, S13, S14]
 INSTANCE_SCENARIOS += [S11, S16, S17]
